@@ -74,7 +74,7 @@ fn process(head: &str, text: &str) -> Value {
                 }
                 results.push(json!({
                     "cfg": cfg.0,
-                    "fails": v.fails.iter().map(|(c, d)| json!([c, d])).collect::<Vec<_>>(),
+                    "fails": v.fails.iter().map(|(c, d, s)| json!([c, d, s])).collect::<Vec<_>>(),
                     "stats": v.stats,
                     "ms": t0.elapsed().as_millis() as u64,
                     "out_hash": hash(&v.out),
@@ -104,8 +104,8 @@ fn one(args: &[String]) {
     let v = oracle::check(&text, cfg);
     println!("parsed without diagnostics: {}", v.parsed);
     println!("--- f(t) ---\n{}--- end ---", v.out);
-    for (c, d) in &v.fails {
-        println!("FAIL {c}: {d}");
+    for (c, d, s) in &v.fails {
+        println!("FAIL {c}: {d}{}", if s.is_empty() { String::new() } else { format!("  [known root cause: {s}]") });
     }
     println!("stats: {}", v.stats);
     std::process::exit(if v.fails.is_empty() { 0 } else { 1 });
@@ -236,6 +236,7 @@ fn main() {
     let mut distinct = std::collections::BTreeSet::new();
     let mut samples: Vec<String> = vec![];
     let mut fail_dir_n = 0;
+    let mut kept_by_sig: BTreeMap<String, u64> = BTreeMap::new();
     std::fs::create_dir_all(outdir.join("failing")).unwrap();
     for (j, o) in jobs.iter().zip(outcomes.iter()) {
         let e = by_kind.entry(j.kind.split(':').next().unwrap().to_string()).or_default();
@@ -271,13 +272,16 @@ fn main() {
                     }
                     for f in r["fails"].as_array().unwrap_or(&vec![]) {
                         let class = f[0].as_str().unwrap_or("?").to_string();
-                        *by_class.entry(class.clone()).or_default() += 1;
-                        if failures.len() < 200 {
+                        let sig = f[2].as_str().unwrap_or("").to_string();
+                        *by_class.entry(if sig.is_empty() { class.clone() } else { format!("{class} [{sig}]") }).or_default() += 1;
+                        let cnt = kept_by_sig.entry(sig.clone()).or_insert(0u64);
+                        *cnt += 1;
+                        if (sig.is_empty() && *cnt <= 150) || (!sig.is_empty() && *cnt <= 12) {
                             fail_dir_n += 1;
                             let fp = outdir.join("failing").join(format!("f{fail_dir_n:03}.cairo"));
                             let _ = std::fs::write(&fp, &j.text);
                             failures.push(json!({
-                                "class": class, "why": f[1], "origin": j.origin, "kind": j.kind,
+                                "class": class, "why": f[1], "sig": sig, "origin": j.origin, "kind": j.kind,
                                 "cfg_bits": cfg.0, "config": cfg.describe(), "input_file": fp.to_string_lossy(),
                                 "input_len": j.text.len(),
                                 "replay_cmd": format!("harness/target/debug/h11 one {} {}", cfg.0, fp.to_string_lossy()),
